@@ -919,10 +919,6 @@ func (in *Interp) fmtValue(fr *frame, x Iface, verb byte, flags string) Str {
 				zero := strings.HasPrefix(flags, "0")
 				wd, _ := strconv.Atoi(strings.TrimLeft(flags, "0"))
 				neg := len(s.b) > 0 && s.b[0].IsConst() && s.b[0].val == '-'
-				if !t.IsConst() && isSigned(u) {
-					// sign known only if the value was forced non-negative by the path; be conservative
-					neg = false
-				}
 				for len(s.b) < wd {
 					pad := ts.Const(8, ' ')
 					if zero {
